@@ -58,7 +58,9 @@ def runMonitor (pid : String) (c : MonCtx) (ls : List Label) : Option (Option Na
   | "C12" => some (ff (monC12 c.cfg.cap) ls)
   | "C13" => some (match ff (monC13 c) ls with
       | some k => some k
-      | none => ff (monC13q c) ls)
+      | none => match ff (monC13q c) ls with
+        | some k => some k
+        | none => ff (monC02wf c) ls)   -- hypothesis of `C13q_holds`: operation ids are fresh
   | "C14" => some (ff (monC14 c) ls)
   | "C15" => some (match ff (monC15 c) ls with
       | some k => some k
